@@ -18,7 +18,7 @@ pub const WORKERS: [u8; 4] = [0, 1, 2, 3];
 pub const ORDER_SELS: [u8; 5] = [0, 1, 16, 32, 64];
 pub const LPC_ORDERS: [u8; 6] = [1, 2, 8, 10, 16, 24];
 pub const PRECISIONS: [u8; 5] = [1, 2, 7, 12, 15];
-pub const WINDOWS: [f32; 5] = [-1.0, 0.0, 0.1, 0.4, 1.0]; // -1 = Rectangle
+pub const WINDOWS: [f32; 7] = [-1.0, 0.0, 0.1, 0.4, 1.0, 0.01, 0.001]; // -1 = Rectangle; tiny alphas: ill-conditioned LPC
 pub const MAX_PARAMS: [u8; 6] = [0, 1, 4, 8, 13, 14];
 pub const MAE_STEPS: [u8; 3] = [0, 1, 2];
 
